@@ -66,7 +66,7 @@ class VLoop(asyncio.SelectorEventLoop):
     def time(self):
         return self.vt
 
-    def drain(self, n=200):
+    def drain(self, n=50000):
         """run the loop until nothing is ready any more (timers do not fire: the clock stands still)"""
         async def z():
             idle = 0
@@ -167,6 +167,13 @@ class FakeTransport(asyncio.transports._FlowControlMixin, asyncio.Transport):
         if self.stall_after is not None and self.n_written >= self.stall_after and not self._protocol_paused:
             self._protocol_paused = True
             self.protocol.pause_writing()
+
+    def resume(self):
+        """the slow peer has drained its window: writing may go on (no further stall)"""
+        self.stall_after = None
+        if self._protocol_paused and not self.closing:
+            self._protocol_paused = False
+            self.protocol.resume_writing()
 
     def _lose(self, exc):
         if self.lost:
@@ -668,7 +675,7 @@ MISBEHAVIOURS = [
     'json_falsy_error', 'json_deep', 'json_only_address', 'oversized_open', 'oversized_ws', 'silence',
     'not_available', 'price_rejected', 'lost_mid_header', 'lost_after_header', 'late_bytes', 'slow_ok', 'slow_timeout',
     'hash_nonstr', 'avail_other', 'no_avail_key', 'no_price_key', 'second_response', 'len_bool',
-    'cap_hdr_in', 'cap_hdr_out', 'cap_junk_in', 'cap_junk_out', 'brace_flood',
+    'cap_hdr_in', 'cap_hdr_out', 'cap_junk_in', 'cap_junk_out', 'brace_flood', 'len_max', 'len_max_minus1',
 ]
 
 
@@ -715,6 +722,10 @@ def gen_request(rng, T, mis=None, size=None, blob_kind=None, frag=None, known_mo
             pass
         if rng.random() < 0.3:
             body = blob + rng.randbytes(8)
+    elif mis in ('len_max', 'len_max_minus1'):
+        # the bound of AbstractBlob.set_length itself: exactly MAX_BLOB_SIZE must be accepted when the length is unknown
+        hdr = hd(incoming_blob={'blob_hash': h, 'length': MAX_BLOB if mis == 'len_max' else MAX_BLOB - 1})
+        known = None
     elif mis == 'known_wrong':
         known = rng.choice([n + 1, max(n - 1, 0), 0, n + 100])
         if known == n:
@@ -1275,7 +1286,9 @@ def run_e2e_case(run, model, case):
             want = h if not case['unknown'][i] else sha(b + b'?')
             d = os.path.join(cdir, 'r%d' % i)
             os.mkdir(d)
-            blob = SpyBlobFile(loop, want, rng.choice([None, len(b)]) if not case['unknown'][i] else None, None, d)
+            km = case.get('known_mode', 'random')
+            kn = None if km == 'none' else (len(b) if km == 'right' else rng.choice([None, len(b)]))
+            blob = SpyBlobFile(loop, want, kn if not case['unknown'][i] else None, None, d)
             known = blob.length
             pipe.new_message()
             n0 = len(pipe.delivered['s2c'])
@@ -1336,6 +1349,15 @@ def run_e2e_case(run, model, case):
 
 
 E2E_MODES = ['bytes', 'all', 'small', 'rand', 'split', 'plus1', 'minus1', 'bytes-hdr']
+
+
+def boundary_e2e_cases(rng):
+    """blobs of exactly MAX_BLOB_SIZE, one less, and one byte, requested by hash only (length learned from the
+    header: AbstractBlob.set_length's bound), honest server, through the fragmenting pipe"""
+    for size in (MAX_BLOB, MAX_BLOB - 1, 1):
+        for modes in (['all', 'big'], ['bytes-hdr', 'split'], ['small', 'plus1']):
+            yield {'kind': 'e2e', 'seed': rng.randrange(1 << 30), 'sizes': [size], 'kinds': [rng.choice(BLOB_KINDS)],
+                   'modes': modes, 'unknown': [False], 'known_mode': 'none', 'modelled': size <= 4096}
 
 
 def gen_e2e_case(rng, big=False):
@@ -1622,6 +1644,146 @@ def gen_tcp_case(rng, i):
             'hostile_client': rng.choice([None, 'oversized', 'bad_json', 'illtyped'])}
 
 
+# ================================================================================ server timers: slow readers, silent peers, stalled transfers
+
+def ref_timer_trace(events):
+    """the property's own reading of the two server timeouts, independent of the Coq model: a connection with no
+    transfer in progress is closed idle_timeout after it became idle; a transfer in progress is only ended by
+    transfer_timeout; finishing a transfer starts a fresh idle period"""
+    now, mode, dl, out = 0, 'idle', IDLE_T, []
+    for ev in events:
+        if mode != 'closed':
+            if ev[0] == 'start' and mode == 'idle':
+                mode, dl = 'transfer', now + TRANSFER_T
+            elif ev[0] == 'done' and mode == 'transfer':
+                mode, dl = 'idle', now + IDLE_T
+            elif ev[0] == 'adv':
+                now += ev[1]
+                if dl <= now:
+                    mode = 'closed'
+        out.append(mode != 'closed')
+    return out
+
+
+def run_tserver_case(run, model, case):
+    """case: {'kind':'tserver','size':n,'script':[['req_slow'],['resume'],['req_fast'],['req_unknown'],['adv',k]...]}
+    req_slow: an honest request from a reader whose window fills after ~300 bytes (the transfer stays in progress
+    until 'resume'); req_fast: the reader takes everything at once."""
+    rng = random.Random(case['seed'])
+    blob = rng.randbytes(case['size'])
+    h = sha(blob)
+    world = ServerWorld([blob])
+    bad = None
+    tev, impl, in_transfer, completed = [], [], False, 0
+    try:
+        t = world.connect()
+        for ev in case['script']:
+            k = ev[0]
+            if k == 'adv':
+                world.loop.advance(ev[1])
+                tev.append(['adv', ev[1]])
+                impl.append(not t.closing)
+                continue
+            if k == 'req_slow' and not in_transfer:
+                t.stall_after = t.n_written + 300
+                t.deliver(honest_request(h))
+                world.loop.drain()
+                if not t.closing:
+                    in_transfer = True
+                tev.append(['start'])
+            elif k == 'req_fast' and not in_transfer:
+                t.stall_after = None
+                t.deliver(honest_request(h))
+                world.loop.drain()
+                tev += [['start'], ['done']]
+                impl.append(not t.closing)
+            elif k == 'resume' and in_transfer:
+                t.resume()
+                world.loop.drain()
+                in_transfer = False
+                tev.append(['done'])
+            elif k == 'req_unknown':
+                t.deliver(honest_request(sha(b'not held')))
+                world.loop.drain()
+                tev.append(['other'])
+            else:
+                continue
+            impl.append(not t.closing)
+        items = decode_server_stream(b''.join(t.written))
+        expect = ref_timer_trace(tev)
+        # property: every transfer the reader finished within transfer_timeout delivered the byte-identical blob
+        want_blobs, now, start = 0, 0, None
+        for ev, op in zip(tev, expect):
+            if ev[0] == 'adv':
+                now += ev[1]
+            elif ev[0] == 'start' and op and start is None:
+                start = now
+            elif ev[0] == 'done' and start is not None:
+                if op:
+                    want_blobs += 1
+                start = None
+        got_blobs = sum(1 for it in items if 'blob' in it and bytes.fromhex(it['blob']) == blob)
+        if impl != expect:
+            i = next(j for j, (a, b) in enumerate(zip(impl, expect)) if a != b)
+            bad = ('server connection %s after %r (event %d of %r): a transfer in progress may only be ended by '
+                   'transfer_timeout=%ds, an idle connection is closed after idle_timeout=%ds' %
+                   ('closed' if not impl[i] else 'still open', tev[i], i, tev, TRANSFER_T, IDLE_T))
+        elif got_blobs != want_blobs:
+            bad = 'a slow but honest reader received %d complete blobs, expected %d' % (got_blobs, want_blobs)
+        elif any('stray' in it for it in items[:2 * want_blobs]):
+            bad = 'stray bytes in a completed transfer'
+        elif not served_ok(world, h):
+            bad = 'server stopped serving other connections'
+    finally:
+        world.close()
+    run.case(case, nontrivial=True)
+    run.count('tserver:' + ('closed' if impl and not impl[-1] else 'open'))
+    if bad:
+        run.violation(case, bad, signature={'kind': 'tserver', 'size': case['size'], 'script': case['script']})
+        return
+    mod = model.call('tserver_trace', idle=IDLE_T, transfer=TRANSFER_T, events=tev)
+    run.compare('C10.server_timers', case, impl, mod)
+
+
+def fixed_tserver_cases():
+    S = [
+        # the slow honest reader: one blob takes longer than idle_timeout but less than transfer_timeout
+        [['req_slow'], ['adv', IDLE_T + 5], ['resume'], ['adv', IDLE_T - 1], ['adv', 1]],
+        [['adv', IDLE_T - 1], ['req_slow'], ['adv', 1], ['adv', IDLE_T], ['adv', TRANSFER_T - IDLE_T - 2], ['resume'], ['adv', 1]],
+        # silent peer: open at idle-1, closed at idle
+        [['adv', IDLE_T - 1], ['adv', 1]],
+        [['req_unknown'], ['adv', IDLE_T - 1], ['req_unknown'], ['adv', 1]],
+        # stalled transfer: open at transfer-1, closed at transfer
+        [['req_slow'], ['adv', TRANSFER_T - 1], ['adv', 1], ['resume']],
+        [['adv', 10], ['req_slow'], ['adv', IDLE_T], ['adv', IDLE_T - 1], ['adv', 1]],
+        # several transfers, each re-arming the idle period
+        [['req_fast'], ['adv', IDLE_T - 1], ['req_slow'], ['adv', IDLE_T + 1], ['resume'], ['adv', IDLE_T - 1], ['req_fast'], ['adv', IDLE_T]],
+    ]
+    for i, sc in enumerate(S):
+        for size in (40000, 2 * 2 ** 20):
+            yield {'kind': 'tserver', 'seed': 1000 + i, 'size': size, 'script': sc}
+
+
+def gen_tserver_case(rng):
+    sc, intr = [], False
+    for _ in range(rng.randrange(2, 9)):
+        c = rng.random()
+        if c < 0.45:
+            sc.append(['adv', rng.choice([1, 5, IDLE_T - 1, IDLE_T, IDLE_T + 1, TRANSFER_T - IDLE_T - 1, TRANSFER_T - IDLE_T,
+                                          TRANSFER_T - 1, TRANSFER_T, 29, 31, 59, 61])])
+        elif c < 0.65 and not intr:
+            sc.append(['req_slow'])
+            intr = True
+        elif c < 0.8 and intr:
+            sc.append(['resume'])
+            intr = False
+        elif c < 0.9 and not intr:
+            sc.append(['req_fast'])
+        else:
+            sc.append(['req_unknown'])
+    return {'kind': 'tserver', 'seed': rng.randrange(1 << 30), 'size': rng.choice([1000, 40000, 300000]), 'script': sc}
+
+
 # ================================================================================ work counter (bytes the client feeds to json.loads)
 
 import lbry.blob_exchange.serialization as _ser  # noqa: E402
@@ -1658,6 +1820,8 @@ def dispatch(run, model, case):
         run_parse_case(run, model, case)
     elif k == 'tcp':
         run_tcp_case(run, case)
+    elif k == 'tserver':
+        run_tserver_case(run, model, case)
     else:
         raise ValueError('unknown case kind %r' % (k,))
 
@@ -1712,6 +1876,9 @@ def main(run):
         'non-UTF8, 1199/1200/1201-byte cap boundary, floods, stall) x the same fragmentation classes, each followed by '
         'an honest second connection and the idle/transfer timeout. e2e: real server <-> real client through a re-chunking '
         'pipe in both directions (8 modes each), blobs to 4096 bytes against the model and 2 MiB by the monitor only. '
+        'boundary: honest e2e transfers of blobs of exactly MAX_BLOB_SIZE, MAX_BLOB_SIZE-1 and 1 byte requested by hash only. '
+        'server timers: scripted slow readers (window fills, transfer stays in progress across idle_timeout), silent peers, stalled '
+        'transfers, several transfers per connection, on the virtual clock, against the timer model and a reference trace. '
         'parse: _parse_blob_response on mutated headers. thorough adds loopback TCP with the real BlobServer. '
         'distinct = distinct canonical case; non-trivial = every case.' % (len(MISBEHAVIOURS), len(SERVER_TAGS)))
     corpus_dir = os.path.join(vlib.VERIF, 'harness', 'corpus', 'C10')
@@ -1751,6 +1918,13 @@ def main(run):
         dispatch(run, model, gen_e2e_case(rng))
     for i in range(2 * mult):
         dispatch(run, model, gen_e2e_case(rng, big=True))
+    for case in boundary_e2e_cases(rng):
+        dispatch(run, model, case)
+    # --- server timers: slow readers, silent peers, stalled transfers
+    for case in fixed_tserver_cases():
+        dispatch(run, model, case)
+    for i in range(40 * mult):
+        dispatch(run, model, gen_tserver_case(rng))
     # --- parser
     for _ in range(600 * mult):
         dispatch(run, model, gen_parse_case(rng))
